@@ -1166,7 +1166,7 @@ package ecs
 //@   props C11
 //@   requires lockInv(&w.locks) && regInv(&w.registry) && idsValid(add) && idsValid(rem) && validID(relation.id)
 //@   requires int(entity.id) < len(w.entityPool.entities) && len(w.entities) == len(w.entityPool.entities)
-//@   requires entAlive(w, entity) ==> w.entities[int(entity.id)].arch != nil && w.entities[int(entity.id)].arch.node != nil && w.entities[int(entity.id)].index < w.entities[int(entity.id)].arch.len
+//@   requires entAlive(w, entity) ==> w.entities[int(entity.id)].arch != nil && w.entities[int(entity.id)].arch.node != nil && w.entities[int(entity.id)].arch.node.nodeData != nil && w.entities[int(entity.id)].index < w.entities[int(entity.id)].arch.len
 //@   requires hasRelation && target.id != 0 ==> int(target.id) < len(w.entityPool.entities)
 //@   requires bitSetCovers(&w.targetEntities, len(w.entities))
 //@   requires entAlive(w, entity) ==> int(w.entities[int(entity.id)].arch.archetypeAccess.RelationTarget.id) < len(w.entities)
@@ -1387,7 +1387,7 @@ package ecs
 //@   modifies a.len
 //@ func archetype.Components(a) (ids)
 //@   props C01
-//@   requires a.node != nil
+//@   requires a.node != nil && a.node.nodeData != nil
 //@   ensures ids == a.node.nodeData.Ids
 
 // findOrCreateArchetype walks/extends the archetype graph (maps, paged slices, reflect): assumed contract.
@@ -1417,7 +1417,7 @@ package ecs
 //@   props C05 C10 C01 C11
 //@   requires lockInv(&w.locks) && regInv(&w.registry) && idsValid(add) && idsValid(rem) && validID(relation.id)
 //@   requires int(entity.id) < len(w.entityPool.entities) && len(w.entities) == len(w.entityPool.entities)
-//@   requires entAlive(w, entity) ==> w.entities[int(entity.id)].arch != nil && w.entities[int(entity.id)].arch.node != nil && w.entities[int(entity.id)].index < w.entities[int(entity.id)].arch.len
+//@   requires entAlive(w, entity) ==> w.entities[int(entity.id)].arch != nil && w.entities[int(entity.id)].arch.node != nil && w.entities[int(entity.id)].arch.node.nodeData != nil && w.entities[int(entity.id)].index < w.entities[int(entity.id)].arch.len
 //@   requires hasRelation && target.id != 0 ==> int(target.id) < len(w.entityPool.entities)
 //@   requires bitSetCovers(&w.targetEntities, len(w.entities))
 //@   requires entAlive(w, entity) ==> int(w.entities[int(entity.id)].arch.archetypeAccess.RelationTarget.id) < len(w.entities)
@@ -1435,6 +1435,9 @@ package ecs
 //@       arch.archetypeAccess.RelationTarget == old(newTarget(w, w.entities[int(entity.id)].arch, rem, hasRelation, target))
 //@   ensures len(add) > 0 || len(rem) > 0 ==> oldTarget == old(w.entities[int(entity.id)].arch.archetypeAccess.RelationTarget)
 //@   ensures (len(add) > 0 || len(rem) > 0) ==> sameSet(*oldMask, old(w.entities[int(entity.id)].arch.archetypeAccess.Mask))
+//@   ensures[swapfix] (len(add) > 0 || len(rem) > 0) && old(w.entities[int(entity.id)].index != w.entities[int(entity.id)].arch.len - 1)
+//@        && entAt(&old(w.entities[int(entity.id)].arch).archetypeAccess, old(w.entities[int(entity.id)].index)).id != entity.id ==>
+//@        w.entities[int(entAt(&old(w.entities[int(entity.id)].arch).archetypeAccess, old(w.entities[int(entity.id)].index)).id)].index == old(w.entities[int(entity.id)].index)
 //@   flag noframe
 //@   loop #1
 //@   inv (exists k int :: {rem[k]} 0 <= k && k < $i && specBit(w.registry.IsRelation, rem[k].id)) == false
